@@ -35,7 +35,7 @@ Print Assumptions C09_eos_sync_idempotent.
 (* ------------------------------------------------------------------ corners excluded by hypotheses of the theorems below
    - [w_init_ok c = false] (configuration rejected by reb_integrator_whfast_init: correctors or non-default kernels with
      non-Jacobi coordinates, variational particles with them, invalid corrector order): synchronize and part1 return
-     at once and change nothing (theorem below); part2 still runs its kernel when a cache exists.  The library reports
+     at once and change nothing, and so does part2 since 1b63af9 (theorem below: the whole step is inert).  The library reports
      an error at every call; after correcting the configuration the run continues like a fresh one (searcher scenario).
    - zero steps: C09_*_unsafe_eq_safe are stated for S n steps (the full states differ in alloc/recalc before the first
      step); the _observed versions cover n = 0.
@@ -50,7 +50,7 @@ Print Assumptions C09_eos_sync_idempotent.
      hold on the elliptic domain only ([wj_dom]): elsewhere only the numerical evidence of the searcher exists. *)
 Theorem C09_whfast_rejected_configuration_is_inert :
   forall T (N : Num T) P J (O : @WOps T P J) dt (c : wcfg) (s : @wst P J),
-  w_init_ok c = false -> w_sync N O dt c s = s /\ w_part1 N O dt c s = s.
+  w_init_ok c = false -> w_sync N O dt c s = s /\ w_part1 N O dt c s = s /\ w_step N O dt c s = s.
 Proof. intros T N P J O dt c s h. exact (w_rejected_inert N O dt c s h). Qed.
 Print Assumptions C09_whfast_rejected_configuration_is_inert.
 
